@@ -325,7 +325,7 @@ proof!(c05_limit_encode_batch_over, 4, {
 proof!(c05_limit_encode_message_over, 4, {
     // serialized Message payload = 1 (None) + 8 (len) + n
     let n: usize = kani::any();
-    kani::assume(n as u64 + 9 > MIB && n <= BIG.len());
+    kani::assume(n <= BIG.len() && n as u64 + 9 > MIB);
     let b = Bytes::from_static(&BIG[..n]);
     let mut buf = BytesMut::new();
     let mut codec = MessageCodec;
@@ -350,31 +350,71 @@ proof!(c05_limit_length_is_payload_len, 4, {
 });
 
 // ---------------------------------------------------------------- message batches
-fn batch_rt<const A: usize, const B: usize, const C: usize>(n: usize) {
-    use selium_protocol::utils::{decode_message_batch, encode_message_batch};
-    let m0 = sym_bytes::<A>();
-    let m1 = sym_bytes::<B>();
-    let m2 = sym_bytes::<C>();
-    let all = [m0.clone(), m1.clone(), m2.clone()];
-    let mut v = Vec::new();
+// Round trip split at the explicit wire image "count, then (len, bytes)*" (big-endian
+// u64s): encode(v) must produce exactly that image, and decoding that image must give
+// v back. (Feeding decode with encode's own BytesMut made the element count a value
+// CBMC could no longer constant-propagate: 10 GB, no answer.)
+use selium_protocol::utils::{decode_message_batch, encode_message_batch};
+
+fn image<const T: usize>(lens: &[usize], data: &[u8]) -> [u8; T] {
+    let mut img = [0u8; T];
+    let mut p = 0;
+    img[p..p + 8].copy_from_slice(&(lens.len() as u64).to_be_bytes());
+    p += 8;
+    let mut d = 0;
     let mut i = 0;
-    while i < n {
-        v.push(all[i].clone());
+    while i < lens.len() {
+        img[p..p + 8].copy_from_slice(&(lens[i] as u64).to_be_bytes());
+        p += 8;
+        let mut j = 0;
+        while j < lens[i] {
+            img[p] = data[d];
+            p += 1;
+            d += 1;
+            j += 1;
+        }
+        i += 1;
+    }
+    img
+}
+
+fn batch_encode<const D: usize, const T: usize>(lens: &[usize]) {
+    let data: [u8; D] = kani::any();
+    let mut v = Vec::new();
+    let mut d = 0;
+    let mut i = 0;
+    while i < lens.len() {
+        v.push(Bytes::copy_from_slice(&data[d..d + lens[i]]));
+        d += lens[i];
         i += 1;
     }
     let enc = encode_message_batch(v);
-    let want_len = 8 + n * 8 + [0, A, A + B, A + B + C][n];
-    assert!(enc.len() == want_len, "batch = count, then (len, bytes)*");
-    let dec = decode_message_batch(enc);
-    assert!(dec.len() == n, "same number of messages");
+    let want: [u8; T] = image::<T>(lens, &data);
+    assert!(enc.len() == T, "batch = count, then (len, bytes)*");
+    assert!(same(&enc, &want), "wire image");
+    core::mem::forget(enc);
+}
+
+fn batch_decode<const D: usize, const T: usize>(lens: &[usize]) {
+    let data: [u8; D] = kani::any();
+    let img: [u8; T] = image::<T>(lens, &data);
+    let dec = decode_message_batch(Bytes::copy_from_slice(&img));
+    let dec = unwrap_batch(dec);
+    assert!(dec.len() == lens.len(), "same number of messages");
+    let mut d = 0;
     let mut i = 0;
-    while i < n {
-        assert!(same(&dec[i], &all[i]), "same messages in the same order");
+    while i < lens.len() {
+        assert!(same(&dec[i], &data[d..d + lens[i]]), "same messages in the same order");
+        d += lens[i];
         i += 1;
     }
-    core::mem::forget((dec, all, m0, m1, m2));
+    core::mem::forget(dec);
 }
-proof!(c05_batch_n0, 12, { batch_rt::<0, 0, 0>(0) });
-proof!(c05_batch_n1, 12, { batch_rt::<2, 0, 0>(1) });
-proof!(c05_batch_n2, 12, { batch_rt::<1, 0, 0>(2) });
-proof!(c05_batch_n3, 12, { batch_rt::<2, 1, 2>(3) });
+
+proof!(c05_batch_enc_n0, 12, { batch_encode::<0, 8>(&[]) });
+proof!(c05_batch_enc_n1, 24, { batch_encode::<2, 18>(&[2]) });
+proof!(c05_batch_enc_n3, 40, { batch_encode::<3, 35>(&[2, 0, 1]) });
+proof!(c05_batch_dec_n0, 12, { batch_decode::<0, 8>(&[]) });
+proof!(c05_batch_dec_n1, 12, { batch_decode::<2, 18>(&[2]) });
+proof!(c05_batch_dec_n2, 12, { batch_decode::<2, 26>(&[1, 1]) });
+proof!(c05_batch_dec_n3, 12, { batch_decode::<3, 35>(&[2, 0, 1]) });
